@@ -144,3 +144,28 @@ Theorem c10_protocol_functions_are_source :
      SIf [] (GBin "!=" (GVar "r") GNil) [SExpr (GCall "t.rootDecRef" [GVar "r"])] []].
 Proof. exact DecProto.protocol_functions. Qed.
 Print Assumptions c10_protocol_functions_are_source.
+
+From GK Require Import DecPins.
+(* a reader holds its version for the whole call (pin released by defer); a mutation releases exactly one more reference,
+   after a successful rootCAS; a lost rootCAS only reports *)
+Theorem c10_readers_hold_their_pin_is_source :
+  forallb pinned_by_defer
+    ["Collection.GetItem"; "Collection.GetTotals"; "Collection.VisitItemsAscendEx"; "Collection.VisitItemsDescendEx";
+     "Store.walk"; "Collection.MarshalJSON"] = true.
+Proof. exact DecPins.readers_hold_their_pin. Qed.
+Print Assumptions c10_readers_hold_their_pin_is_source.
+
+Theorem c10_mutations_release_once_is_source :
+  (forall f, In f ["Collection.SetItem"; "Collection.Delete"] ->
+     In (SDefer (GCall "t.rootDecRef" [GVar "rnl"])) (body f) /\
+     count_occ string_dec (calls 400 (body f)) "t.rootDecRef" = 2%nat /\
+     List.last (calls 400 (body f)) "" = "t.rootDecRef" /\
+     before "t.rootCAS" "errors.New" (skipn 10 (calls 400 (body f))) = true) /\
+  List.filter (fun s => match s with SIf _ (GUn "!" (GCall "t.rootCAS" _)) _ _ => true | _ => false end)
+         (body "Collection.SetItem" ++ body "Collection.Delete") =
+  [SIf [] (GUn "!" (GCall "t.rootCAS" [GVar "rnl"; GVar "rnlNew"]))
+     [SReturn [GCall "errors.New" [GLit """concurrent mutation attempted"""]]] [];
+   SIf [] (GUn "!" (GCall "t.rootCAS" [GVar "rnl"; GVar "rnlNew"]))
+     [SReturn [GVar "false"; GCall "errors.New" [GLit """concurrent mutation attempted"""]]] []].
+Proof. exact DecPins.mutations_release_once. Qed.
+Print Assumptions c10_mutations_release_once_is_source.
